@@ -366,7 +366,8 @@ type Subst struct {
 	Version string // "" = keep
 	// PurlEdit != "": edit every *purl.PackageURL held in an exported top-level field of the
 	// metadata (packages of the SBOM extractors keep the PURL they read there): "no-version",
-	// "no-namespace", "no-qualifiers", "no-subpath", "name-only".
+	// "no-namespace", "no-qualifiers", "no-subpath", "name-only", "with-subpath", "with-namespace",
+	// "with-qualifiers", "with-everything".
 	PurlEdit string
 }
 
@@ -375,7 +376,8 @@ type Subst struct {
 // the type) are not produced.
 func PurlFieldSubstitutions() []Subst {
 	var out []Subst
-	for _, e := range []string{"no-version", "no-namespace", "no-qualifiers", "no-subpath", "name-only"} {
+	for _, e := range []string{"no-version", "no-namespace", "no-qualifiers", "no-subpath", "name-only",
+		"with-subpath", "with-namespace", "with-qualifiers", "with-everything"} {
 		out = append(out, Subst{Label: "purlfield:" + e, PurlEdit: e})
 	}
 	return out
@@ -410,13 +412,42 @@ func editPurlFields(m any, edit string) bool {
 			u.Subpath = ""
 		case "name-only":
 			u.Version, u.Namespace, u.Qualifiers, u.Subpath = "", "", nil, ""
+		case "with-subpath":
+			if u.Subpath == "" {
+				u.Subpath = "sub/dir"
+			}
+		case "with-namespace":
+			if u.Namespace == "" {
+				u.Namespace = "ns1/ns2"
+			}
+		case "with-qualifiers":
+			if len(u.Qualifiers) == 0 {
+				u.Qualifiers = purl.Qualifiers{{Key: "arch", Value: "x86 64"}, {Key: "distro", Value: "d-1"}}
+			}
+		case "with-everything":
+			if u.Subpath == "" {
+				u.Subpath = "sub/dir"
+			}
+			if u.Namespace == "" {
+				u.Namespace = "ns1/ns2"
+			}
+			if len(u.Qualifiers) == 0 {
+				u.Qualifiers = purl.Qualifiers{{Key: "arch", Value: "x86 64"}, {Key: "distro", Value: "d-1"}}
+			}
+			if u.Version == "" {
+				u.Version = "1.0"
+			}
 		}
 		if u.String() == before {
 			continue
 		}
-		if _, err := packageurl.FromString(u.String()); err != nil {
+		// the SBOM extractors store what the parser returned, i.e. a canonical PURL
+		ref := packageurl.PackageURL{Type: u.Type, Namespace: u.Namespace, Name: u.Name, Version: u.Version, Qualifiers: packageurl.Qualifiers(u.Qualifiers), Subpath: u.Subpath}
+		can, err := packageurl.FromString(ref.ToString())
+		if err != nil {
 			continue // not a PURL an SBOM extractor could have stored
 		}
+		u = purl.PackageURL{Type: can.Type, Namespace: can.Namespace, Name: can.Name, Version: can.Version, Qualifiers: purl.Qualifiers(can.Qualifiers), Subpath: can.Subpath}
 		f.Set(reflect.ValueOf(&u))
 		changed = true
 	}
